@@ -18,6 +18,7 @@ CONSTANTS
  K = 1000
  LoopChecksFlag = TRUE
  AssertLine = FALSE
+ CapOrder <- GCap
  StopAllowed = FALSE
 INIT MCInit
 NEXT Next
